@@ -11,12 +11,14 @@ mod c04;
 mod c05;
 mod c07;
 mod c08;
+mod c09;
 mod c10;
 mod c11;
 mod c12;
 mod c13;
 mod c14;
 mod c16;
+mod c17;
 mod c18;
 
 use common::*;
@@ -228,9 +230,11 @@ fn main() {
         "C05" => c05::run(thorough),
         "C07" => c07::run(thorough),
         "C08" => c08::run(thorough),
+        "C09" => c09::run(thorough),
         "C10" => c10::run(thorough),
         "C11" => c11::run(thorough),
         "C16" => c16::run(thorough),
+        "C17" => c17::run(thorough),
         "C12" => c12::run(thorough),
         "C13" => c13::run(thorough),
         "C14" => c14::run(thorough),
